@@ -55,6 +55,7 @@ type WorldCfg struct {
 	LongLines    bool  // lines of up to 45 stops (slice growth inside the journal)
 	DateVariety  bool  // trips start on different service days
 	LateNight    bool  // some trips start at or after 24:00:00 of their service day
+	Horizon      int   // trains are born (and first assigned) at ticks drawn from [0, Horizon); 0 means 6
 	EpochShift   int64 // the world's clock starts this many seconds after Epoch (2038 rollover, far future)
 	RepeatDaily  bool  // the same trip id (and time of day) runs on two different service days, as NYCT ids do
 }
@@ -109,15 +110,17 @@ type train struct {
 	deadTick  int
 	omitLeft  int
 	noNyct    bool
+	assignAt  int // tick at which an unassigned train gets its vehicle (0: not planned)
 }
 
 type stopPred struct {
-	stop  string
-	arr   int64
-	dep   int64
-	hasA  bool
-	hasD  bool
-	track string
+	skipped int // 0 no, 1 SKIPPED with times, 2 SKIPPED without times, 3 NO_DATA
+	stop    string
+	arr     int64
+	dep     int64
+	hasA    bool
+	hasD    bool
+	track   string
 }
 
 type World struct {
@@ -161,6 +164,13 @@ func NewWorld(t *sim.T, cfg WorldCfg) *World {
 		w.trains = append(w.trains, w.newTrain(i))
 	}
 	return w
+}
+
+func (w *World) horizon() int {
+	if w.Cfg.Horizon > 6 {
+		return w.Cfg.Horizon
+	}
+	return 6
 }
 
 func (w *World) startDate() string {
@@ -211,7 +221,7 @@ func (w *World) newTrain(i int) *train {
 		startTime: fmt.Sprintf("%02d:%02d:%02d", secs/3600, (secs/60)%60, secs%60),
 		trainID:   fmt.Sprintf("%s%d %02d%02d+ X%d/Y%d", r, i, secs/3600, (secs/60)%60, i, t.Choose(3)),
 		assigned:  !t.Chance(1, 3),
-		bornTick:  t.Choose(6),
+		bornTick:  t.Choose(w.horizon()),
 		deadTick:  1 << 30,
 		noNyct:    t.Chance(1, 12),
 	}
@@ -234,6 +244,10 @@ func (w *World) newTrain(i int) *train {
 	if t.Chance(1, 4) {
 		tr.deadTick = tr.bornTick + t.Range(1, 12)
 	}
+	if !tr.assigned && w.horizon() > 6 && t.Chance(1, 2) {
+		// in long histories: unassigned for a long stretch, assigned at some later tick
+		tr.assignAt = tr.bornTick + t.Choose(w.horizon())
+	}
 	line := append([]string(nil), w.lines[r]...)
 	if dir == 'S' {
 		for a, b := 0, len(line)-1; a < b; a, b = a+1, b-1 {
@@ -247,7 +261,11 @@ func (w *World) newTrain(i int) *train {
 	base := w.Now + int64(t.Range(30, 600))
 	for k, s := range line {
 		a := base + int64(k*120)
-		tr.remaining = append(tr.remaining, stopPred{stop: s, arr: a, dep: a + 30, hasA: k > 0 || t.Chance(1, 2), hasD: true, track: fmt.Sprintf("%d", 1+t.Choose(4))})
+		sk := 0
+		if t.Chance(1, 14) {
+			sk = 1 + t.Choose(3) // a stop the trip skips (with or without times) or has no data for
+		}
+		tr.remaining = append(tr.remaining, stopPred{skipped: sk, stop: s, arr: a, dep: a + 30, hasA: k > 0 || t.Chance(1, 2), hasD: true, track: fmt.Sprintf("%d", 1+t.Choose(4))})
 	}
 	return tr
 }
@@ -353,7 +371,11 @@ func (w *World) advStop() stopPred {
 	t := w.t
 	s := advAlphabet[t.Choose(len(advAlphabet))]
 	a := w.Now + int64(t.Range(-120, 900))
-	return stopPred{stop: s, arr: a, dep: a + 30, hasA: !t.Chance(1, 4), hasD: !t.Chance(1, 4), track: []string{"", "1", "2", "A3"}[t.Choose(4)]}
+	sk := 0
+	if t.Chance(1, 10) {
+		sk = 1 + t.Choose(3)
+	}
+	return stopPred{skipped: sk, stop: s, arr: a, dep: a + 30, hasA: !t.Chance(1, 4), hasD: !t.Chance(1, 4), track: []string{"", "1", "2", "A3"}[t.Choose(4)]}
 }
 
 // Tick advances simulated time and publishes one snapshot.
@@ -401,6 +423,9 @@ func (w *World) Tick() *gtfsrt.FeedMessage {
 		if t.Chance(1, 24) {
 			tr.trainID = tr.trainID + "'" // the consist was swapped: same trip, new vehicle id
 			t.Probe("world-vehicle-swap")
+		}
+		if tr.assignAt > 0 && w.tick == tr.assignAt {
+			tr.assigned = true
 		}
 		if w.Cfg.FlapAssign > 0 && t.Chance(w.Cfg.FlapAssign, 16) {
 			tr.assigned = !tr.assigned
@@ -489,6 +514,17 @@ func (w *World) tripEntities(tr *train) []*gtfsrt.FeedEntity {
 		}
 		if t.Chance(1, 6) {
 			stu.StopSequence = pu32(uint32(i + 1))
+		}
+		switch sp.skipped {
+		case 1, 2:
+			sr := gtfsrt.TripUpdate_StopTimeUpdate_SKIPPED
+			stu.ScheduleRelationship = &sr
+			if sp.skipped == 2 {
+				stu.Arrival, stu.Departure = nil, nil
+			}
+		case 3:
+			sr := gtfsrt.TripUpdate_StopTimeUpdate_NO_DATA
+			stu.ScheduleRelationship = &sr
 		}
 		if w.Cfg.Nyct && sp.track != "" {
 			n := &gtfsrt.NyctStopTimeUpdate{ScheduledTrack: ps(sp.track)}
